@@ -313,6 +313,9 @@ def _hint_text(h):
     h = ' '.join(h.split())
     if h.startswith('RAW:'):
         return '\n/*@H*/ ' + h[4:].strip()
+    m = re.match(r'^LABEL:(\S+?):\s*(.*)$', h)
+    if m:   # a labelled intermediate assertion: an obligation of its own, reported under its label
+        return '\n/*@HL %s*/ proof { %s }' % (m.group(1), m.group(2))
     return '\n/*@H*/ proof { ' + h + ' }'
 
 
@@ -561,6 +564,12 @@ def gen_fn(fn, g, canary=False):
         m = re.match(r'^\s*/\*@H\*/(.*)$', clean)
         if m:
             g.add('        ' + m.group(1).strip(), {'origin': 'hint', 'fn': fn.key})
+            continue
+        m = re.match(r'^\s*/\*@HL (.+?)\*/(.*)$', clean)
+        if m:
+            lab = m.group(1)
+            g.labels[lab] = {'fn': fn.key, 'kind': 'assert', 'line': len(g.lines) + 1}
+            g.add('        ' + m.group(2).strip(), {'origin': 'contract', 'label': lab, 'fn': fn.key, 'kind': 'assert'})
             continue
         if ms:
             cur = int(ms[0])
